@@ -25,7 +25,7 @@ crate::verif_harness! {
     /// Indexed::as_rgba over all (pixel index, entry index, entry RGBA, transparent index, background flag):
     /// None iff the index is not in the palette; palette colour with alpha 0 iff the index is the
     /// transparent index and the layer is not a background layer, else the palette alpha.
-    #[kani::unwind(4)]
+    #[kani::unwind(12)]
     fn k_indexed_as_rgba(s) {
         let mut entries = nohash::IntMap::default();
         let eid = s.u32();
